@@ -29,6 +29,24 @@ mod ffi {
         pub fn clear(&mut self) { self.cb = None; }
     }
 }
+#[diplomat::bridge]
+mod ffi_iter {
+    #[diplomat::opaque]
+    pub struct Bytes(pub Vec<u8>, pub u32);
+    #[diplomat::opaque]
+    pub struct BytesIter<'a>(pub core::slice::Iter<'a, u8>, pub u32);
+    impl Bytes {
+        pub fn new(id: u32, n: u8) -> Box<Bytes> { Box::new(Bytes((0..n).collect(), id)) }
+        #[diplomat::attr(auto, iterable)]
+        pub fn iter<'a>(&'a self) -> Box<BytesIter<'a>> { Box::new(BytesIter(self.0.iter(), self.1 + 1000)) }
+    }
+    impl<'a> BytesIter<'a> {
+        #[diplomat::attr(auto, iterator)]
+        pub fn next(&mut self) -> Option<u8> { self.0.next().copied() }
+    }
+}
+impl Drop for ffi_iter::Bytes { fn drop(&mut self) { unsafe { verif_event(3, self.1) } } }
+impl<'a> Drop for ffi_iter::BytesIter<'a> { fn drop(&mut self) { unsafe { verif_event(3, self.1) } } }
 extern "C" { fn verif_event(kind: u32, id: u32); }
 impl Drop for ffi::Tok { fn drop(&mut self) { unsafe { verif_event(1, self.0) } } }
 impl Drop for ffi::Holder { fn drop(&mut self) { self.cb = None; unsafe { verif_event(2, self.id) } } }
@@ -42,11 +60,12 @@ C_PRE = r'''
 #include "Tok.h"
 #include "Holder.h"
 void* diplomat_alloc(size_t size, size_t align);
-void verif_event(uint32_t kind, uint32_t id) { printf(" %s%u", kind == 1 ? "drop" : "hdrop", id); }
+void verif_event(uint32_t kind, uint32_t id) { printf(" %s%u", kind == 1 ? "drop" : kind == 2 ? "hdrop" : "idrop", id); }
 typedef struct Cb { uint32_t id; int alive; int calls; } Cb;
 static Cb cbs[4096];
-static int32_t run_cb(const void* data, int32_t x) { Cb* c = (Cb*)data; if (!c->alive) { printf(" UAF%u", c->id); return -999; } c->calls++; return x + (int32_t)c->id; }
-static void drop_cb(const void* data) { Cb* c = (Cb*)data; if (!c->alive) printf(" DOUBLE%u", c->id); c->alive = 0; printf(" cbdrop%u", c->id); }
+static Cb* nullslot;   /* a callback whose data cookie is (void*)0, as with handle tables that start at 0 */
+static int32_t run_cb(const void* data, int32_t x) { Cb* c = data ? (Cb*)data : nullslot; if (!c->alive) { printf(" UAF%u", c->id); return -999; } c->calls++; return x + (int32_t)c->id; }
+static void drop_cb(const void* data) { Cb* c = data ? (Cb*)data : nullslot; if (!c->alive) printf(" DOUBLE%u", c->id); c->alive = 0; printf(" cbdrop%u", c->id); }
 '''
 
 
@@ -103,7 +122,8 @@ def gen_history(rng, n):
             steps.append((f"Holder* h{h} = Holder_new({h});", [f"OMkBox {h}"], []))
         elif r < 0.78:
             c = fresh()
-            steps.append((f"cbs[{c}] = (Cb){{{c}, 1, 0}}; if (Holder_call_now((DiplomatCallback_Holder_call_now_f){{&cbs[{c}], run_cb, drop_cb}}) != {20 + c + 1}) printf(\" BADCB\");",
+            data = f"&cbs[{c}]" if rng.random() < 0.6 else "NULL"
+            steps.append((f"cbs[{c}] = (Cb){{{c}, 1, 0}}; nullslot = &cbs[{c}]; if (Holder_call_now((DiplomatCallback_Holder_call_now_f){{{data}, run_cb, drop_cb}}) != {20 + c + 1}) printf(\" BADCB\");",
                           [f"OMkCb {c} true", f"ODrop {c}"], [f"cbdrop{c}"]))
         elif r < 0.88 and holders:
             h = rng.choice(list(holders)); c = fresh(); old = holders[h]
@@ -199,11 +219,22 @@ CPP_PRE = r"""
 #include <functional>
 #include "Tok.hpp"
 #include "Holder.hpp"
-extern "C" void verif_event(uint32_t kind, uint32_t id) { printf(" %s%u", kind == 1 ? "drop" : "hdrop", id); }
+#include "Bytes.hpp"
+#include "BytesIter.hpp"
+extern "C" void verif_event(uint32_t kind, uint32_t id) { printf(" %s%u", kind == 1 ? "drop" : kind == 2 ? "hdrop" : "idrop", id); }
 struct Probe { uint32_t id = 0; bool alive = true; ~Probe() { alive = false; printf(" cbdrop%u", id); } };
 static std::function<int32_t(int32_t)> mk(uint32_t id) {
   auto p = std::make_shared<Probe>(); p->id = id;
   return [p](int32_t x) { if (!p->alive) { printf(" UAF%u", p->id); return -999; } return x + (int32_t)p->id; };
+}
+"""
+
+
+CPP_ACC = r"""
+// a callable that carries its own state: every call through Rust must reach the same object
+static std::function<int32_t(int32_t)> mkacc(uint32_t id) {
+  auto p = std::make_shared<Probe>(); p->id = id;
+  return [p, acc = (int32_t)0](int32_t x) mutable { acc += x; return acc + (int32_t)p->id; };
 }
 """
 
@@ -221,23 +252,46 @@ def gen_cpp_history(rng, n):
             h = fresh(); holders[h] = None
             steps.append((f"auto h{h} = Holder::new_({h});", []))
         elif r < 0.5:
-            h = rng.choice(live); c = fresh(); old = holders[h]; holders[h] = c
+            h = rng.choice(live); c = fresh(); old = holders[h]
             which = rng.choice(["store_fn", "store_mut"])
-            steps.append((f"h{h}->{which}(mk({c}));", [f"cbdrop{old}"] if old else []))
+            acc = which == "store_mut" and rng.random() < 0.6
+            holders[h] = [c, 0] if acc else c
+            oldid = old[0] if isinstance(old, list) else old
+            steps.append((f"h{h}->{which}({'mkacc' if acc else 'mk'}({c}));", [f"cbdrop{oldid}"] if old else []))
         elif r < 0.7:
             h = rng.choice(live); x = rng.randint(-5, 50); c = holders[h]
-            steps.append((f'printf(" r%d", h{h}->call({x}));', [f"r{x + c}" if c else "r-1"]))
+            if isinstance(c, list):
+                c[1] += x
+                steps.append((f'printf(" r%d", h{h}->call({x}));', [f"r{c[1] + c[0]}"]))
+            else:
+                steps.append((f'printf(" r%d", h{h}->call({x}));', [f"r{x + c}" if c else "r-1"]))
         elif r < 0.8:
             c = fresh()
             steps.append((f'printf(" r%d", Holder::call_now(mk({c})));', [f"cbdrop{c}", f"r{20 + c + 1}"]))
         elif r < 0.9:
             h = rng.choice(live); c = holders[h]; holders[h] = None
+            c = c[0] if isinstance(c, list) else c
             steps.append((f"h{h}->clear();", [f"cbdrop{c}"] if c else []))
         else:
             h = rng.choice(live); c = holders.pop(h)
+            c = c[0] if isinstance(c, list) else c
             steps.append((f"h{h}.reset();", ([f"cbdrop{c}"] if c else []) + [f"hdrop{h}"]))
+    # a stateful callable stored by Rust and called repeatedly: the state lives in the one object Rust owns
+    h = fresh(); c = fresh()
+    steps.append((f"auto h{h} = Holder::new_({h});", []))
+    steps.append((f"h{h}->store_mut(mkacc({c}));", []))
+    for x, tot in ((5, 5), (5, 10), (1, 11)):
+        steps.append((f'printf(" r%d", h{h}->call({x}));', [f"r{tot + c}"]))
+    steps.append((f"h{h}.reset();", [f"cbdrop{c}", f"hdrop{h}"]))
+    # iterators: range-for, then copies of one iterator; the Rust iterator object is destroyed exactly once per iter() call
+    b = fresh(); k = rng.randint(1, 5)
+    steps.append((f"auto b{b} = Bytes::new_({b}, {k});", []))
+    steps.append((f'{{ int s = 0; for (auto v : *b{b}) s += v; printf(" s%d", s); }}', [f"idrop{b + 1000}", f"s{sum(range(k))}"]))
+    steps.append((f'{{ auto it = b{b}->begin(); auto copy = it; auto third = copy; printf(" f%d", (int)*it); }}', ["f0", f"idrop{b + 1000}"]))
+    steps.append((f"b{b}.reset();", [f"idrop{b}"]))
     for h in sorted(holders):
         c = holders[h]
+        c = c[0] if isinstance(c, list) else c
         steps.append((f"h{h}.reset();", ([f"cbdrop{c}"] if c else []) + [f"hdrop{h}"]))
     return steps
 
@@ -255,7 +309,7 @@ def run_cpp_callbacks(ctx):
         return 0, 0
     nh = 8 if ctx.quick() else 80
     hists = [gen_cpp_history(rng, rng.choice([6, 12, 25])) for _ in range(nh)]
-    L = [CPP_PRE, "int main() { setvbuf(stdout, NULL, _IONBF, 0);"]
+    L = [CPP_PRE, CPP_ACC, "int main() { setvbuf(stdout, NULL, _IONBF, 0);"]
     for hi, steps in enumerate(hists):
         L.append(f"  {{ printf(\"H {hi}\\n\");")
         for si, (stmt, ev) in enumerate(steps):
